@@ -25,6 +25,7 @@ CONSTANTS MaxOps, MaxFire, MaxPkt, MaxRd, MaxWr,
                        \*  "readclosed" ReadFrom after Close may still return a queued packet (the unrepaired code)
                        \*  "nounblock" Close does not wake blocked readers
                        \*  "latecheck" hop tests the closed flag after listening
+                       \*  "wunlocked" WriteTo snapshots socket and target under the lock and sends after unlocking
 
 VARIABLES s,           \* state of the connection, the fakes and the driver's counters
           phase, pending, hopOut, t, nops, nfire, mon, hist
@@ -76,6 +77,17 @@ WriteCS(st, port, tt) ==
   IN IF st.closed
      THEN << <<EWriteCall(w), EWriteRet(w, FALSE)>>, [st EXCEPT !.nwr = w] >>
      ELSE << <<EWriteCall(w), EInnerWrite(k, port, tt), EWriteRet(w, TRUE)>>, [st EXCEPT !.nwr = w] >>
+
+\* mutant "wunlocked": the two halves of a WriteTo that releases the lock before the socket write
+WSnapCS(st) ==
+  LET w == st.nwr + 1 IN
+  IF st.closed THEN << <<EWriteCall(w), EWriteRet(w, FALSE)>>, [st EXCEPT !.nwr = w, !.wsnap = 0] >>
+               ELSE << <<EWriteCall(w)>>, [st EXCEPT !.nwr = w, !.wsnap = st.cur] >>
+WSendCS(st, port, tt) ==
+  IF st.wsnap = 0 THEN << <<>>, st >>
+  ELSE IF st.wsnap \in st.open
+  THEN << <<EInnerWrite(st.wsnap, port, tt), EWriteRet(st.nwr, TRUE)>>, [st EXCEPT !.wsnap = 0] >>
+  ELSE << <<EWriteRet(st.nwr, FALSE)>>, [st EXCEPT !.wsnap = 0] >>     \* the snapshotted socket has been closed
 
 \* conn.go:256-273 Close()
 CloseCS(st) ==
@@ -144,15 +156,20 @@ Fire ==
 Inst ==
   /\ phase = "inst" /\ pending # {}
   /\ \E op \in pending :
-       /\ pending' = pending \ {op}
-       /\ LET fin == IF pending = {op} THEN <<EQuiesce>> ELSE <<>> IN
-          \/ op = "hop"   /\ s' = HopCS(s, hopOut, t)[2] /\ mon' = Emit(mon, HopCS(s, hopOut, t)[1] \o fin)
-          \/ op = "close" /\ s' = CloseCS(s)[2] /\ mon' = Emit(mon, CloseCS(s)[1] \o fin)
-          \/ op = "write" /\ \E p \in (IF Mut = "anyport" THEN PortU ELSE Ports) :
-                               s' = WriteCS(s, p, t)[2] /\ mon' = Emit(mon, WriteCS(s, p, t)[1] \o fin)
-          \/ op = "read"  /\ \E stale \in {FALSE, Mut = "readclosed"} :
-                               s' = ReadCS(s, stale)[2] /\ mon' = Emit(mon, ReadCS(s, stale)[1] \o fin)
-       /\ phase' = IF pending = {op} THEN "idle" ELSE "inst"
+       LET split == op = "write" /\ Mut = "wunlocked"
+           rest  == (pending \ {op}) \cup (IF split THEN {"wsend"} ELSE {})
+           fin   == IF rest = {} THEN <<EQuiesce>> ELSE <<>>
+       IN /\ pending' = rest
+          /\ phase' = IF rest = {} THEN "idle" ELSE "inst"
+          /\ \/ op = "hop"   /\ s' = HopCS(s, hopOut, t)[2] /\ mon' = Emit(mon, HopCS(s, hopOut, t)[1] \o fin)
+             \/ op = "close" /\ s' = CloseCS(s)[2] /\ mon' = Emit(mon, CloseCS(s)[1] \o fin)
+             \/ op = "write" /\ ~split /\ \E p \in (IF Mut = "anyport" THEN PortU ELSE Ports) :
+                                  s' = WriteCS(s, p, t)[2] /\ mon' = Emit(mon, WriteCS(s, p, t)[1] \o fin)
+             \/ op = "write" /\ split /\ s' = WSnapCS(s)[2] /\ mon' = Emit(mon, WSnapCS(s)[1] \o fin)
+             \/ op = "wsend" /\ \E p \in Ports :
+                                  s' = WSendCS(s, p, t)[2] /\ mon' = Emit(mon, WSendCS(s, p, t)[1] \o fin)
+             \/ op = "read"  /\ \E stale \in {FALSE, Mut = "readclosed"} :
+                                  s' = ReadCS(s, stale)[2] /\ mon' = Emit(mon, ReadCS(s, stale)[1] \o fin)
   /\ UNCHANGED <<hopOut, t, nops, nfire, hist>>
 
 \* the driver always closes at the end, lets two more intervals pass and takes the census
@@ -165,7 +182,7 @@ Finish ==
   /\ UNCHANGED <<pending, hopOut, t, nops, nfire>>
 
 S0 == [open |-> {1}, cur |-> 1, prev |-> 0, closed |-> FALSE, queue |-> <<>>, blk |-> {},
-       nsock |-> 1, nwr |-> 0, nrd |-> 0, ntag |-> 0]
+       nsock |-> 1, nwr |-> 0, nrd |-> 0, ntag |-> 0, wsnap |-> 0]
 
 Init == /\ s = S0 /\ phase = "idle" /\ pending = {} /\ hopOut = FALSE /\ t = 0 /\ nops = 0 /\ nfire = 0
         /\ hist = <<>>
